@@ -268,6 +268,7 @@ class SyncInterpreter(BaseInterpreter[TContext, TEvent]):
         #    terminates: the child's own `stop()` re-enters this one, which
         #    now hits the idempotency guard instead of recursing forever.
         self.status = "stopped"
+        self._unregister_from_system()
         for actor_id, actor in list(self._actors.items()):
             try:
                 actor.stop()
